@@ -50,7 +50,8 @@ var Includes = map[string][]string{
 	"C04": {"C17.shared-state"},
 	// the walk never examines the last rule of a file: sound only if that is the allow rule
 	"C06": {"C13.allow-last"},
-	"C08": {"C05.immutable-verifier"},
+	// repetition independence: objects handed out by caches are immutable, and only validated links are memoised
+	"C08": {"C05.immutable-verifier", "C04.stepper-checks"},
 	// which rules apply to a path / namespace is decided by Matches
 	"C10": {"C06.matches-exact"},
 	"C11": {"C06.matches-exact"},
